@@ -261,6 +261,31 @@ def analyse(obs: Obs, prog):
     if is_t(wt, "phi"):
         okw0 = is_t(wt[3], "choose")
         obs.add({"C05", "C13"}, "WEIGHT-UPD", "Switch.edit/same-index-weight", okw0, derived=show(wt[3])[:200], expected="choose(idx, [w_i])", where=w)
+    # tree_choose needs the per-branch retdiffs to have ONE tree structure, and change tags are static structure: a constraint that reaches the return value of
+    # one branch only (branches with distinct addresses - the documented use) makes the tags differ.  Every raw branch retdiff handed to the choice must therefore
+    # be either re-tagged uniformly (unknown_change / no_change of the primal) or guarded by "all branches report NoChange".
+    def _leaves(t, conds=()):
+        if is_t(t, "phi"):
+            return _leaves(t[2], conds + ((t[1], True),)) + _leaves(t[3], conds + ((t[1], False),))
+        return [(conds, t)]
+
+    def _all_nochange_guard(conds):
+        for c, pol in conds:
+            neg = is_t(c, "un") and c[1] == "not"
+            core = c[2] if neg else c
+            if is_call(core, "all") and mentions_any(core, lambda x: is_call(x, "static_check_no_change")) and (pol != neg):
+                return True
+        return False
+
+    raw_bad = []
+    if is_t(q[2], "choose") and is_t(q[2][2], "fam"):
+        for conds, leaf in _leaves(q[2][2][2]):
+            retagged = is_call(leaf, "unknown_change") or is_call(leaf, "no_change") or is_call(leaf, "tree_diff")
+            if not retagged and not _all_nochange_guard(conds):
+                raw_bad.append(show(leaf)[:120])
+    obs.add({"C13", "C05", "C08"}, "BRANCH-TAG-JOIN", "Switch.edit/retdiff-tags", is_t(q[2], "choose") and not raw_bad, construct="per-branch retdiffs chosen by index",
+            derived=f"raw branch retdiff(s) reach tree_choose with branch-dependent tags: {raw_bad[:2]}" if raw_bad else "uniformly tagged or guarded",
+            expected="retdiffs re-tagged uniformly (Diff.unknown_change(Diff.tree_primal(rd))) unless every branch reports NoChange", where=w)
     oks = is_t(f.get("score"), "choose") and is_t(q[2], "choose")
     obs.add({"C05", "C13", "C01"}, "SCORE-AGG", "Switch.edit/score", oks and f.get("retval") == dcall("tree_primal", q[2]), derived=show(f.get("retval"))[:200], expected="score / retdiff chosen by the new index; retval = primal(retdiff)", where=w)
     okst = is_t(f.get("subtraces"), "fam") and all(is_t(x, "mselem") and is_t(x[2], "proj") and x[2][2] == 0 or (is_t(x, "mselem")) for x in ([f.get("subtraces")[2]] if not is_t(f.get("subtraces")[2], "phi") else [f.get("subtraces")[2][2], f.get("subtraces")[2][3]])) if is_t(f.get("subtraces"), "fam") else False
